@@ -115,8 +115,9 @@ def _gen0(rng, tier):
     for _ in range(1 if tier == 'quick' else 3):                   # more than 2^20 frames, a label that occurs only in the last few
         labs = [0, 1, 2, 3]
         n = 2**20 + rng.choice([1, 3, 5, 7])
-        t = [labs[(i // 97) % 3] for i in range(n - 2)] + [3, 3]
-        yield {'k': rng.choice(['unique', 'rbi']), 'form': 'arr1', 'trajs': [t], 'alpha': 'huge'}
+        t = [labs[(i // 97) % 3] for i in range(n - 1)] + [3]            # the new label is the very last frame
+        for kk in ('unique', 'rbi'):
+            yield {'k': kk, 'form': 'arr1', 'trajs': [t], 'alpha': 'huge'}
     if tier == 'thorough':
         vals = [-1, 0, 2, 3]
         for L in range(1, 7):
